@@ -672,7 +672,7 @@ Print Assumptions C05_json_provider_guard_only_for_several_passes_refuted.
 
 (* "succeeds only if every pool ran out of ammo": data with ammo on ANY source that can be sought -- one that reports its
    end on a read of its own (pend = 0) as well as one that hands its last data out together with io.EOF (pend up to a):
-   the guard never refuses a rewind, `passes` passes hand out passes * a ammo, then nil (after repair PENDING-COMMIT) *)
+   the guard never refuses a rewind, `passes` passes hand out passes * a ammo, then nil (after repair c78f643) *)
 Theorem C05_json_provider_passes_counted : forall a pend passes n pc d db fuel,
   0 < a -> 0 < n -> pc + n = passes -> db <= d -> n <= fuel ->
   jd_passes fuel jd_current passes 0 a pend true pc d db = (JdNil, d + n * a).
